@@ -988,19 +988,55 @@ def hardening_stream(ctx, lad):
         h = of.DiagonalCoulombHamiltonian(one_body, np.array(two_body, dtype=np.float64), const)
         return circuit_unitary(cirq, of.simulate_trotter(qubits, h, time, n_steps=n_steps, order=order,
                                                          algorithm=algorithm(of, alg)), list(q3))
+    ctlq = cirq.LineQubit(-1)
+
+    def run2(alg, one_body, two_body, const, order, ctl, time=0.5, n_steps=2, qubits=q3):
+        h = of.DiagonalCoulombHamiltonian(one_body, np.array(two_body, dtype=np.float64), const)
+        oq = ([ctlq] if ctl else []) + list(q3)
+        return circuit_unitary(cirq, of.simulate_trotter(qubits, h, time, n_steps=n_steps, order=order,
+                                                         algorithm=algorithm(of, alg),
+                                                         control_qubit=ctlq if ctl else None), oq)
+    # dtypes of DiagonalCoulombHamiltonian.one_body accepted by the unmodified tree (probed when the check was built):
+    # LINEAR_SWAP_NETWORK: complex64, clongdouble, float32, longdouble, float16, Fortran order; SPLIT_OPERATOR: complex64,
+    # float32 (eigh in single precision: 1e-6), Fortran order; two_body must be float64 (constructor).  All generated
+    # values are multiples of 1/4, exactly representable in every one of these types.
+    dtype_variants = {
+        'LSN': [('complex64', lambda M: M.astype(np.complex64), False, 1e-10),
+                ('clongdouble', lambda M: M.astype(np.clongdouble), False, 1e-10),
+                ('complex128 Fortran', lambda M: np.asfortranarray(M.copy()), False, 1e-10),
+                ('float32', lambda M: M.real.astype(np.float32), True, 1e-10),
+                ('longdouble', lambda M: M.real.astype(np.longdouble), True, 1e-10),
+                ('float16', lambda M: M.real.astype(np.float16), True, 1e-10)],
+        'SO': [('complex64', lambda M: M.astype(np.complex64), False, 1e-6),
+               ('complex128 Fortran', lambda M: np.asfortranarray(M.copy()), False, 1e-10),
+               ('float32', lambda M: M.real.astype(np.float32), True, 1e-6)],
+    }
+    for alg in ('LSN', 'SO'):
+        for tn, conv, real_only, tol in dtype_variants[alg]:
+            src = Treal if real_only else base
+            if not real_only and not np.any(np.abs(src.one_body.imag) > 0):
+                src.one_body[0, 1] += 0.5j
+                src.one_body[1, 0] -= 0.5j
+            for order in (0, 1, 2):
+                for ctl in (False, True):
+                    case = {'family': 'T', 'algorithm': alg, 'variant': 'one_body ' + tn, 'order': order, 'controlled': ctl,
+                            'hamiltonian': ham_json(alg, src)}
+                    st.case(case)
+                    st.count('T:one_body-dtype')
+                    ok, want = safe(st, 'T: simulate_trotter (complex128 one_body)', case, lambda: run2(
+                        alg, np.array(src.one_body, dtype=complex), src.two_body, src.constant, order, ctl))
+                    if not ok:
+                        continue
+                    ok, U = safe(st, 'T: simulate_trotter (one_body %s)' % tn, case, lambda: run2(
+                        alg, conv(np.array(src.one_body)), src.two_body, src.constant, order, ctl))
+                    st.float_comparisons += 1
+                    if ok and not maxdiff(U, want) <= tol:
+                        st.violate('T: simulate_trotter with a %s one_body differs from the same values as complex128 (%s)'
+                                   % (tn, alg), case, {'max_abs_difference': maxdiff(U, want)})
     for alg in ('LSN', 'SO'):
         canon = run(alg, base.one_body.copy(), base.two_body, base.constant)
-        canon_real = run(alg, Treal.one_body.copy(), Treal.two_body, Treal.constant)
         canon_t1 = run(alg, base.one_body.copy(), base.two_body, base.constant, time=1.0)
         variants = [
-            ('one_body float64', lambda: run(alg, Treal.one_body.real.astype(np.float64), Treal.two_body, Treal.constant),
-             canon_real, TOL),
-            ('one_body float32', lambda: run(alg, Treal.one_body.real.astype(np.float32), Treal.two_body, Treal.constant),
-             canon_real, 1e-6),
-            ('one_body complex64', lambda: run(alg, base.one_body.astype(np.complex64), base.two_body, base.constant),
-             canon, 1e-6),
-            ('one_body Fortran order', lambda: run(alg, np.asfortranarray(base.one_body.copy()), base.two_body,
-                                                   base.constant), canon, TOL),
             ('two_body Fortran order', lambda: run(alg, base.one_body.copy(), np.asfortranarray(base.two_body),
                                                    base.constant), canon, TOL),
             ('constant int', lambda: run(alg, base.one_body.copy(), base.two_body, 1), canon, TOL),
@@ -1103,8 +1139,13 @@ def ops_stream(ctx):
 
     sizes = [2, 3, 4, 5] if not big else [1, 2, 3, 4, 5, 6]
     for n in sizes:
-        for pattern in ('mixed', 'imaginary', 'real'):
+        for pattern, narrow in (('mixed', None), ('imaginary', None), ('real', None), ('mixed', np.complex64),
+                                ('imaginary', np.clongdouble), ('real', np.float32)):
             ham = patterned_dch(of, rng, n, pattern)
+            if narrow is not None:
+                # same (dyadic) values in a narrower / wider dtype; SPLIT_OPERATOR needs a LAPACK dtype
+                ob = ham.one_body.real if narrow is np.float32 else ham.one_body
+                ham = of.DiagonalCoulombHamiltonian(ob.astype(narrow), ham.two_body.copy(), ham.constant)
             time = rng.choice([0.5, -0.75, 1.0])
             qubits = [cirq.LineQubit(2 * i) for i in range(n)]
             pos = {q: i for i, q in enumerate(qubits)}
@@ -1116,7 +1157,8 @@ def ops_stream(ctx):
                                    ('lsn-sym', lsn.SymmetricLinearSwapNetworkTrotterStep, False),
                                    ('lsn-asym-controlled', lsn.ControlledAsymmetricLinearSwapNetworkTrotterStep, True),
                                    ('lsn-sym-controlled', lsn.ControlledSymmetricLinearSwapNetworkTrotterStep, True)):
-                case = {'step': kind, 'n': n, 'pattern': pattern, 'time': time, 'hamiltonian': ham_json('LSN', ham)}
+                case = {'step': kind, 'n': n, 'pattern': pattern, 'time': time, 'hamiltonian': ham_json('LSN', ham),
+                        'one_body_dtype': str(ham.one_body.dtype)}
                 st.case(case)
                 st.count('step:' + kind)
                 ok, ops = safe(st, '%s.trotter_step' % kind, case, lambda: list(cirq.flatten_op_tree(
@@ -1136,6 +1178,8 @@ def ops_stream(ctx):
                 model = ctx.driver.one(dict(base, op='c15.step', kind=kind))
                 cmp_entries(case, real, model, kind)
             # split operator
+            if narrow is np.clongdouble:
+                continue   # numpy.linalg has no extended-precision eigh: rejected by the unmodified tree
             for kind, cls, ctl in (('so-asym', so.AsymmetricSplitOperatorTrotterStep, False),
                                    ('so-sym', so.SymmetricSplitOperatorTrotterStep, False),
                                    ('so-asym', so.ControlledAsymmetricSplitOperatorTrotterStep, True),
